@@ -122,3 +122,24 @@ claim(
     'loop-variant recognition per CFG path; call-graph SCCs with structural-'
     'argument labels; dominance of guard facts at emission sites',
     'DESIGN.md §4 C03')
+
+claim(
+    'C08', 'other',
+    'Finite table, compared exhaustively: the scanner nodeio.parse_smtlib is '
+    'a hand-written automaton; its decision table (5 states TOP/TOKEN/STRING/'
+    'QUOTED/COMMENT x 16 character classes x look-ahead) is extracted from '
+    'the CFG by partially evaluating the character tests for one '
+    'representative per class (forking on end-of-input and open-list tests) '
+    'and compared cell by cell with the SMT-LIB 2.6 lexicon written down in '
+    'the checker (section 3.1). In addition: uniform two-way emission of the '
+    'four lexeme kinds, flush of an open token/comment at end of input, '
+    'literal contents never touch the structure. All cells are compared, not '
+    'sampled inputs.',
+    'Informational (not armed) cells: " and | inside a token, CR ending a '
+    'comment. Characters outside the listed classes are assumed to behave '
+    'like OTHER (the scanner only compares with constants - checked: any '
+    'other test form is an ANALYSIS-ERROR). A scanner rewritten away from '
+    'the character-loop form (regex, str.find) fails closed with exit 2.',
+    'decision-table extraction by partial evaluation over character classes '
+    '+ cell-wise comparison with a reference table',
+    'DESIGN.md §4 C08')
